@@ -1,3 +1,4 @@
+import Rpcx.Model.Atomic
 import Rpcx.Lemmas.MuxInv
 /-
   C05: every call completes exactly once, whatever fails and whenever – theorems about the
@@ -93,5 +94,32 @@ theorem shutdown_monotone (s : St) (ev : Ev) (h : s.shutdown = true) : (step s e
 /-- non-vacuity: peer close in the middle, then Close: one signal each, nothing pending -/
 example : ((run (init [false, false]) [.register 0, .writeOk 0, .register 1, .terminate, .close]).calls.map (·.signals)) = [1, 1]
     ∧ (run (init [false, false]) [.register 0, .writeOk 0, .register 1, .terminate, .close]).pending = [] := by decide
+
+/-! ### the model's atomic steps are the code's critical sections (regenerated facts) -/
+
+theorem tie_atomic : Gen.atomicTieOk = true := by decide
+
+/-- the reader's teardown (`terminate` in the model) is ONE critical section of `input`: closing
+    the connection, setting `shutdown` and draining the pending table (remove + signal) -/
+theorem tie_reader_teardown_atomic :
+    Atomic.sameRegion .clientInput .clientMutex [.connClose, .setShutdown, .rangePending, .deletePending, .callDone] = true := by
+  decide
+
+/-- `Close` is one critical section: drain (remove + signal), close the connection, set `closing` -/
+theorem tie_close_atomic :
+    Atomic.sameRegion .clientClose .clientMutex [.rangePending, .deletePending, .callDone, .connClose, .setClosing] = true := by
+  decide
+
+/-- registration tests the flags and inserts under one acquisition -/
+theorem tie_register_atomic :
+    Atomic.sameRegion .clientSend .clientMutex [.testShutdown, .testClosing, .putPending] = true := by decide
+
+/-- the failure paths of `send` (encode error, write error, one-way completion) remove the call
+    from the table under the lock, and only signal what they themselves removed: every region
+    that deletes from the table first looks the entry up, and no delete happens outside the lock -/
+theorem tie_failure_paths_owner_only :
+    Atomic.regionsWithAlsoHave .clientSend .clientMutex .deletePending .getPending = true
+    ∧ Atomic.onlyUnder .clientSend .clientMutex .deletePending = true
+    ∧ Atomic.onlyUnder .clientInput .clientMutex .deletePending = true := by decide
 
 end Rpcx.Props.C05
